@@ -426,6 +426,11 @@ func init() {
 									fn := enclosingFuncName(u.pkgPath, f, c.Pos())
 									ranged := mapRangedInFunc(u, f, c.Pos())
 									r.Check(!ranged, fn, "map created by make", "map is used as a lookup table only", "a map created here is ranged over in the same function", e.Pos(c.Pos()))
+									if esc := mapEscapes(u, f, c); esc != "" {
+										r.Bad(fn, "map created by make: only indexed", "a map created in state-machine code is used other than by indexing ("+esc+"): handing it to a function (maps.Keys, maps.Values, reflection, ...) exposes Go's randomised iteration order without any `range` over the map appearing in the module", nil, e.Pos(c.Pos()))
+									} else {
+										r.OK(fn, "map created by make: only indexed", "every use of the map is m[k], len(m) or delete(m, k)", e.Pos(c.Pos()))
+									}
 								}
 							}
 						}
@@ -455,4 +460,85 @@ func mapRangedInFunc(u astUnit, f *ast.File, pos token.Pos) bool {
 		})
 	}
 	return ranged
+}
+
+// mapEscapes: the map assigned from the make call c is used in the enclosing function other than as m[k], len(m), delete(m,k).
+func mapEscapes(u astUnit, f *ast.File, c *ast.CallExpr) string {
+	var fd *ast.FuncDecl
+	for _, d := range f.Decls {
+		if x, ok := d.(*ast.FuncDecl); ok && x.Pos() <= c.Pos() && c.Pos() <= x.End() {
+			fd = x
+		}
+	}
+	if fd == nil || fd.Body == nil {
+		return ""
+	}
+	// find the variable the make result is assigned to
+	var obj types.Object
+	ast.Inspect(fd.Body, func(n ast.Node) bool {
+		switch x := n.(type) {
+		case *ast.AssignStmt:
+			for i, rhs := range x.Rhs {
+				if rhs == ast.Expr(c) && i < len(x.Lhs) {
+					if id, ok := x.Lhs[i].(*ast.Ident); ok {
+						if o := u.info.Defs[id]; o != nil {
+							obj = o
+						} else {
+							obj = u.info.Uses[id]
+						}
+					}
+				}
+			}
+		case *ast.ValueSpec:
+			for i, v := range x.Values {
+				if v == ast.Expr(c) && i < len(x.Names) {
+					obj = u.info.Defs[x.Names[i]]
+				}
+			}
+		}
+		return true
+	})
+	if obj == nil {
+		return "" // not bound to a variable (e.g. composite literal field): handled by the range rule
+	}
+	var stack []ast.Node
+	esc := ""
+	ast.Inspect(fd.Body, func(n ast.Node) bool {
+		if n == nil {
+			stack = stack[:len(stack)-1]
+			return true
+		}
+		stack = append(stack, n)
+		id, ok := n.(*ast.Ident)
+		if !ok || esc != "" || (u.info.Uses[id] != obj) {
+			return true
+		}
+		if len(stack) < 2 {
+			return true
+		}
+		parent := stack[len(stack)-2]
+		switch p := parent.(type) {
+		case *ast.IndexExpr:
+			if p.X == ast.Expr(id) {
+				return true
+			}
+		case *ast.CallExpr:
+			if fid, ok := p.Fun.(*ast.Ident); ok && (fid.Name == "len" || fid.Name == "delete") {
+				return true
+			}
+			esc = "passed to " + types.ExprString(p.Fun)
+			return true
+		case *ast.RangeStmt:
+			return true // reported by the range rule
+		case *ast.AssignStmt:
+			for _, l := range p.Lhs {
+				if l == ast.Expr(id) {
+					return true
+				}
+			}
+		}
+		esc = fmt.Sprintf("used in %T", parent)
+		return true
+	})
+	return esc
 }
